@@ -1,9 +1,9 @@
 \* batch trace validation on the smallest test reactor (12 objects) plus copies and loaded reactors
-CONSTANTS N = 64  Par = {"s", "a", "d", "n"}  NVal = 2  NGrid = 2  MaxDepth = 99  MaxLevel = 9999
+CONSTANTS N = 64  Par = {"s", "a", "d", "n", "u"}  NVal = 2  NGrid = 2  MaxDepth = 99  MaxLevel = 9999
           GridSlot = "stack"  PickleSerial = "fresh"  Keeps = {}  DbSerial = "max"  DbCls = {"r"}
-          CopyCls = {"r", "core", "sfp", "asm", "blk", "cmp"}
+          CopyCls = {"r", "core", "sfp", "asm", "blk", "cmp"}  Unset0 = {}
 CONSTANTS Acts <- TrActs  Parent0 <- TrParent0  Cls0 <- TrCls0
-          ParOf <- TrParOf  GridCls <- TrGridCls  MatCls <- TrMatCls  CallsOf <- TrCalls
+          ParOf <- TrParOf  GridCls <- TrGridCls  MatCls <- TrMatCls  CallsOf <- TrCalls  Link0 <- TrLink0
 SPECIFICATION TSpec
 CONSTRAINT Progress
 POSTCONDITION Report
